@@ -1,4 +1,5 @@
 import Poulpy.Lemmas.ScratchCore2
+import Poulpy.Lemmas.ScratchProg
 /-
 C12 — "Declared scratch size always suffices and scratch contents never matter."
 
@@ -738,5 +739,103 @@ example : ∀ t ∈ [treeCkksEncryptSk .fft64 8 ⟨1, 2, 17⟩, treeCkksShift 8]
   decide
 
 end batch2
+
+/-! ## "scratch contents never matter", as far as a model can carry it
+
+The numeric models of the operations are pure functions with no scratch argument.  The refinement that
+justifies this: an operation's use of its scratch is a `ScratchProg.Prog` (reads and writes of the cells of
+its window, a take returning whatever was there); if every read of a cell is preceded by a write of it
+(`WBR []`), the result does not depend on the initial contents.  Proved once, instantiated for the
+operations whose footprint is structurally evident; the two-fill runs of ./check remain the tie to the
+implementation (they found the one real violation of this half, the un-zeroed `res_dft`, repaired in d3c2e96). -/
+
+section contents
+open ScratchProg
+
+/-- **Write before read ⇒ the result is independent of the initial scratch contents.** -/
+theorem write_before_read_independent {Val α : Type} (p : Prog Val α) (h : WBR [] p) (m m' : Nat → Val) :
+    (run p m).1 = (run p m').1 :=
+  ScratchProg.write_before_read_independent p h m m'
+
+example : (run (Prog.write 3 (5 : Int) (Prog.read 3 (fun v => Prog.ret (v + 1)))) (fun _ => 0)).1 = 6 ∧
+          (run (Prog.write 3 (5 : Int) (Prog.read 3 (fun v => Prog.ret (v + 1)))) (fun _ => 99)).1 = 6 := by decide
+
+/-- the hypothesis is needed: a program that reads a cell it has not written returns what the scratch held
+(this is the shape of the repaired `res_dft` defect: accumulate into a limb never written) -/
+theorem read_before_write_dependent :
+    ¬ (∀ (p : Prog Int Int) (m m' : Nat → Int), (run p m).1 = (run p m').1) := by
+  intro h
+  have := h (Prog.read 0 (fun v => Prog.write 0 (v + 1) (Prog.ret v))) (fun _ => 0) (fun _ => 1)
+  revert this; decide
+
+/-- sequencing and loops preserve write-before-read (how the instances below are built) -/
+theorem wbr_compositional {Val α β : Type} (p : Prog Val α) (f : α → Prog Val β) (W : List Nat)
+    (hp : WBR W p) (hf : ∀ a W', (∀ c, c ∈ W → c ∈ W') → WBR W' (f a)) : WBR W (p.bind f) :=
+  WBR_bind p f W hp hf
+
+example : WBR [] ((Prog.write 0 (1 : Int) (Prog.ret ())).bind (fun _ => Prog.read 0 (fun v => Prog.ret v))) := by
+  simp [Prog.bind, WBR]
+
+/-- a whole-buffer kernel `dst := f(src)` with initialised sources initialises its destination
+(`vec_znx_dft_apply`, `zero`, `copy`, `normalize` into a temporary taken from scratch) -/
+theorem kernel_initialises_destination {Val α : Type} (src dst : List Nat) (f : List Val → List Val) (k : Prog Val α) (W : List Nat)
+    (hs : ∀ c, c ∈ src → c ∈ W) (hf : ∀ vs, (f vs).length = dst.length) (hk : WBR (dst.reverse ++ W) k) :
+    WBR W (kernel src dst f k) :=
+  WBR_kernel src dst f k W hs hf hk
+
+example : WBR [] (kernel [] [0, 1] (fun _ => [(4 : Int), 5]) (kernel [0, 1] [2] (fun vs => [vs.sum]) (Prog.read 2 (fun v => Prog.ret v)))) := by
+  refine WBR_kernel _ _ _ _ _ (by simp) (by simp) (WBR_kernel _ _ _ _ _ (by simp) (by simp) ?_)
+  simp [WBR]
+
+/-- `vec_znx_rotate_assign`, `vec_znx_automorphism_assign`, `vec_znx_mul_xp_minus_one_assign`,
+`vec_znx_big_automorphism_assign`: the one-limb temporary is a copy of the limb before it is read -/
+theorem assign_via_tmp_scratch_independent {Val : Type} (size : Nat) (limb : Nat → Val) (g : Val → Val) (m m' : Nat → Val) :
+    (run (progAssignViaTmp size limb g) m).1 = (run (progAssignViaTmp size limb g) m').1 :=
+  write_before_read_independent _ (wbr_assignViaTmp size limb g) m m'
+
+example : (run (progAssignViaTmp 3 (fun i => (10 * i : Int)) (· + 1)) (fun _ => 777)).1 = [1, 11, 21] := by decide
+
+/-- `vec_znx_normalize_assign` (and every normalisation whose first step writes the carry buffer) -/
+theorem normalize_assign_scratch_independent {Val : Type} (limbs : List Val) (first : Val → Val × Val) (step : Val → Val → Val × Val)
+    (m m' : Nat → Val) :
+    (run (progNormalizeAssign limbs first step) m).1 = (run (progNormalizeAssign limbs first step) m').1 :=
+  write_before_read_independent _ (wbr_normalizeAssign limbs first step) m m'
+
+example : (run (progNormalizeAssign [(7 : Int), 9, 12] (fun l => (l % 8, l / 8)) (fun l c => ((l + c) % 8, (l + c) / 8))) (fun _ => 123)).1 = [0, 2, 4] := by
+  decide
+
+/-- `glwe_decrypt`: `c0_big` is filled with zero, `ci_dft` is written by `vec_znx_dft_apply`, the carry buffer by
+the first normalisation step — for every rank and whatever the kernels compute -/
+theorem glwe_decrypt_scratch_independent {Val : Type} (rank : Nat) (zero : Val) (dftCol : Nat → Val) (svp : Nat → Val → Val)
+    (acc : Val → Val → Val) (addSmall : Val → Val) (normFirst : Val → Val × Val) (normRest : Val → Val → Val) (m m' : Nat → Val) :
+    (run (progGlweDecrypt rank zero dftCol svp acc addSmall normFirst normRest) m).1 =
+    (run (progGlweDecrypt rank zero dftCol svp acc addSmall normFirst normRest) m').1 :=
+  write_before_read_independent _ (wbr_glweDecrypt rank zero dftCol svp acc addSmall normFirst normRest) m m'
+
+example : (run (progGlweDecrypt 2 (0 : Int) (fun i => i + 1) (fun i d => (i + 2) * d) (· + ·) (· + 100) (fun c => (c % 10, c / 10)) (· + ·))
+    (fun _ => 55)).1 = 18 := by decide
+
+/-- `glwe_encrypt_sk` / `glwe_encrypt_zero_sk` / the rows of `gglwe_encrypt_sk`, `ggsw_encrypt_sk` -/
+theorem glwe_encrypt_sk_scratch_independent {Val : Type} (cols : Nat) (zero : Val) (dftCol : Nat → Val) (svp : Nat → Val → Val)
+    (bigNorm : Val → Val × Val) (fin : Val → Val → Val) (sub : Val → Val → Val) (addNoise : Val → Val)
+    (normFirst : Val → Val × Val) (normRest : Val → Val → Val) (m m' : Nat → Val) :
+    (run (progEncSkInternal cols zero dftCol svp bigNorm fin sub addNoise normFirst normRest) m).1 =
+    (run (progEncSkInternal cols zero dftCol svp bigNorm fin sub addNoise normFirst normRest) m').1 :=
+  write_before_read_independent _ (wbr_encSkInternal cols zero dftCol svp bigNorm fin sub addNoise normFirst normRest) m m'
+
+example : (run (progEncSkInternal 3 (0 : Int) (fun i => i + 1) (fun _ d => 2 * d) (fun d => (d, 1)) (· + ·) (· - ·) (· + 7)
+    (fun c => (c, 0)) (· + ·)) (fun _ => -5)).1 = -1 := by decide
+
+/-- `glwe_keyswitch` (same radix, `dsize = 1`): `res_dft.zero()`, `a_dft` from `vec_znx_dft_apply`, the vmp buffer and
+the carry buffer written before use -/
+theorem glwe_keyswitch_scratch_independent {Val : Type} (cols : Nat) (zero aDft : Val) (vmpTmp : Val → Val) (vmp : Val → Val → Val)
+    (addSmall : Val → Val) (normFirst : Nat → Val → Val × Val) (normRest : Val → Val → Val) (m m' : Nat → Val) :
+    (run (progKeyswitch cols zero aDft vmpTmp vmp addSmall normFirst normRest) m).1 =
+    (run (progKeyswitch cols zero aDft vmpTmp vmp addSmall normFirst normRest) m').1 :=
+  write_before_read_independent _ (wbr_keyswitch cols zero aDft vmpTmp vmp addSmall normFirst normRest) m m'
+
+example : (run (progKeyswitch 2 (0 : Int) 3 (· * 2) (· + ·) (· + 1) (fun j r => (r + j, j)) (· * ·)) (fun _ => 42)).1 = [0, 11] := by decide
+
+end contents
 
 end C12
